@@ -54,7 +54,8 @@
      so the net effect is the same, only later; T is inside its poll at that time so it will be polled again.
    * The task may enter `drain_queue` in any state of the queue (the code: only when the queue is Idle, Pending or
      WaitingForPoll(own id)); it then continues whatever operation is in progress.  This only adds behaviours.
-   * `drop(scheduler_future)` has no step (its Drop is empty).
+   * `drop(scheduler_future)` has no step (its Drop is empty).  `send.signal(())` consumes the signaller, whose Drop locks the
+     result cell once more (and does nothing, the result being set): that second section is not a step.
    * Other operations take two steps (start, finish); between them they may suspend ([AOSusp]: the operation is a future that
      returns Pending and keeps the waker of its runner's context - the queue waker, or both wakers of drain_queue's
      DoubleWaker when the runner is the draining task, which then leaves drain_queue exactly as for a pending slot job)
@@ -356,8 +357,9 @@ Definition step (F : sfacts) (s : state) (a : actor) : option state :=
         end
       else None
   | AOWake =>
-      (* what the suspended other operation waits for happens *)
-      if is_other s.(cur) && s.(parked) then
+      (* what the suspended other operation waits for happens; while the task is still leaving drain_queue the DrainWaker
+         only remembers the wake-up and delivers it in wake_with, i.e. afterwards *)
+      if is_other s.(cur) && s.(parked) && negb (in_drain s.(pc)) then
         match s.(owk) with Some w => Some (wake w (s <| owk := None |>)) | None => None end
       else None
   | AWakeQ =>
